@@ -77,6 +77,8 @@ structure Step where
   alpha : Array Float
   tables : Tables
   obs : List (String × Obs)   -- by prefix
+  /-- measured quality of the implementation's SVD routine on this step's matrix (harness `svdq`) -/
+  svdq : Option Float := none
 deriving Inhabited
 
 def Obs.add (o : Obs) (l : Array String) : Obs :=
@@ -113,6 +115,9 @@ def parseSteps (c : Case) : Array Step := Id.run do
       else if t == "d" then
         let f := if l.getD 2 "" == "ok" then some (fmatAt l 3) else none
         steps := steps.set! i { st with tables := { st.tables with d := st.tables.d.push f } }
+      else if t == "svdq" then
+        let q := (parseF (l.getD 1 "")).abs + (parseF (l.getD 2 "")).abs + (parseF (l.getD 3 "")).abs
+        steps := steps.set! i { st with svdq := some q }
       else if t == "impl" || t == "again" || t == "fresh" || t.startsWith "twin" then
         steps := steps.set! i { st with obs := addObs st.obs l }
   return steps
@@ -312,7 +317,13 @@ def stateCore (focus : String) (c : Case) : Acc × String := Id.run do
     match Pbefore.cached with
     | none => pure ()
     | some cache =>
-      let cond := condOf cache eps dsvd
+      -- backward error of the SVD oracle: measured for this very matrix when the harness supplies it
+      -- (nalgebra's SVD is usually accurate to a few u but loses up to 1e-5 (f64) on some
+      -- rank-deficient matrices), the calibrated global bound otherwise
+      let dsvd := match step.svdq with
+        | some q => 16.0 * q
+        | none => dsvd
+      let cond := condOf cache eps (dsvd + cw * u)
       if cond.kappa > kmax then kmax := cond.kappa
       if !cond.full then rankTag := "deficient"
       let Aw : FMat := match step.tables.phi with
